@@ -37,7 +37,11 @@ pub fn run_c12(cx: &mut Cx) {
 }
 
 fn credential(cx: &mut Cx, c: u64, suite: Suite, issuer: NodeId, holder: NodeId) {
-    let l = if cx.run_index % 4 == 0 && c == 0 { 1 + (cx.run_index / 4 % 6) as usize } else { 1 + cx.ch.choose("L", 12) as usize };
+    // mostly short credentials; 1 in 8 is a long one (around 64 / 128 / 256 messages) updated at
+    // the positions around those sizes and at its last position
+    let long = !(cx.run_index % 4 == 0 && c == 0) && cx.ch.chance("long_credential", 1, 8);
+    let l = if cx.run_index % 4 == 0 && c == 0 { 1 + (cx.run_index / 4 % 6) as usize } else if long { [65usize, 129, 254, 255, 256, 257, 300][cx.ch.choose("L_long", 7) as usize] } else { 1 + cx.ch.choose("L", 12) as usize };
+    if long { cx.count("probe.long_credential_updated_near_its_end"); }
     let seed = cx.run_seed ^ (c << 32);
     let header = gen_octets(cx, "header", c);
     let msgs: Vec<Bytes> = (0..l).map(|i| if cx.ch.chance("empty_initial", 1, 8) { Vec::new() } else { bytes_for(seed, b"u-m", i as u64, 4 + i % 9) }).collect();
@@ -51,7 +55,7 @@ fn credential(cx: &mut Cx, c: u64, suite: Suite, issuer: NodeId, holder: NodeId)
         let mut reqs: Vec<Req> = Vec::new();
         let mut cur = msgs.clone();
         for j in 0..k {
-            let index = if l <= 6 { (j + cx.run_index as usize) % l } else { cx.ch.choose("index", l as u64) as usize };
+            let index = if l <= 6 { (j + cx.run_index as usize) % l } else if long { let cands = [l - 1, l - 2, 0, 63, 64, 127, 128, 253, 254, 255, 256]; let c: Vec<usize> = cands.iter().copied().filter(|&i| i < l).collect(); c[cx.ch.choose("index_long", c.len() as u64) as usize] } else { cx.ch.choose("index", l as u64) as usize };
             let new = if cx.ch.chance("same_value", 1, 12) { cur[index].clone() } else if cx.ch.chance("empty_value", 1, 8) { Vec::new() } else { bytes_for(seed, b"u-new", j as u64, 3 + j % 7) };
             reqs.push(Req { index, old: cur[index].clone(), new: new.clone(), tag: format!("c{c}u{j}") });
             cur[index] = new;
